@@ -1,19 +1,60 @@
-(* The input forms of cp_mode_dot / cp_flip_sign (CPTensor object vs plain tuple, weights None) on the repaired tree:
-   every form reduces to the core function applied to the given weights, or to ones when the weights are None. *)
+(* The input forms of cp_mode_dot / cp_flip_sign (CPTensor object with cached shape vs plain tuple, weights None, copy):
+   whatever the form, an accepted call returns an object holding the answer of the core function on the operand's weights
+   (ones for None) and factors, and its cached shape is the shape of what it represents. *)
 From Coq Require Import List Arith Lia Bool ZArith.
 From TLV Require Import Base.Shape Base.PyList Base.Tensor Base.BigSum Base.Ops Model.Transforms.
 Import ListNotations.
 
-Lemma cp_mode_dot_api_all {F} (Op : fops F) (is_class copy : bool) (w : option (list F)) (fs : list (mat F)) (x : operand)
-  (mode : nat) (kd : bool) :
-  cp_mode_dot_api Op is_class copy w fs x mode kd = cp_mode_dot Op (weights_or_ones Op w fs) fs x mode kd.
-Proof. reflexivity. Qed.
-Lemma cp_flip_sign_api_all {F} (Op : fops F) (is_class : bool) (summ : list F -> F) (w : option (list F)) (fs : list (mat F)) (mode : nat) :
-  cp_flip_sign_api Op is_class summ w fs mode = cp_flip_sign Op summ (weights_or_ones Op w fs) fs mode.
-Proof. reflexivity. Qed.
-(* the forms agree with each other: same answer for an object and a tuple, with and without copy *)
-Lemma cp_mode_dot_api_form_independent {F} (Op : fops F) (c1 c2 p1 p2 : bool) w fs x mode kd :
-  cp_mode_dot_api Op c1 p1 w fs x mode kd = cp_mode_dot_api Op c2 p2 w fs x mode kd.
-Proof. reflexivity. Qed.
-Lemma weights_or_ones_length {F} (Op : fops F) (fs : list (mat F)) : length (weights_or_ones Op None fs) = cp_rank fs.
-Proof. apply repeat_length. Qed.
+Section Api.
+Context {F : Type} (Op : fops F).
+Lemma cp_new_spec (w : option (list F)) fs o : cp_new Op w fs = Ok o ->
+  cp_validb w fs = true /\ cpo_w o = weights_or_ones Op w fs /\ cpo_fs o = fs /\ cpo_shape o = cp_shape fs.
+Proof. unfold cp_new. destruct (cp_validb w fs); [|discriminate]. intros E. injection E as <-. auto. Qed.
+
+Theorem cp_mode_dot_api_spec (x : cp_operand) copy opd mode kd o' :
+  cp_mode_dot_api Op x copy opd mode kd = Ok o' ->
+  operand_okb x = true /\
+  cp_mode_dot Op (operand_w Op x) (operand_fs x) opd mode kd = Ok (cpo_w o', cpo_fs o') /\
+  cpo_shape o' = cp_shape (cpo_fs o').
+Proof.
+  unfold cp_mode_dot_api. destruct (operand_okb x); [|discriminate].
+  destruct (cp_mode_dot Op (operand_w Op x) (operand_fs x) opd mode kd) as [[w' fs']|]; [|discriminate].
+  destruct x as [w fs | o]; [|destruct copy].
+  - intros E. destruct (cp_new_spec _ _ _ E) as (_ & -> & -> & ->). auto.
+  - intros E. destruct (cp_new_spec _ _ _ E) as (_ & -> & -> & ->). auto.
+  - intros E. injection E as <-. auto.
+Qed.
+Theorem cp_flip_sign_api_spec (x : cp_operand) summ mode o' :
+  cp_flip_sign_api Op x summ mode = Ok o' ->
+  operand_okb x = true /\
+  cp_flip_sign Op summ (operand_w Op x) (operand_fs x) mode = Ok (cpo_w o', cpo_fs o') /\
+  cpo_shape o' = cp_shape (cpo_fs o').
+Proof.
+  unfold cp_flip_sign_api. destruct (operand_okb x); [|discriminate].
+  destruct (cp_flip_sign Op summ (operand_w Op x) (operand_fs x) mode) as [[w' fs']|]; [|discriminate].
+  intros E. destruct (cp_new_spec _ _ _ E) as (_ & -> & -> & ->). auto.
+Qed.
+Lemma cp_obj_ext (a b : cp_obj (F:=F)) : cpo_shape a = cpo_shape b -> cpo_w a = cpo_w b -> cpo_fs a = cpo_fs b -> a = b.
+Proof. destruct a, b; simpl; intros; subst; reflexivity. Qed.
+(* the forms agree: the object built from (w, fs) and the tuple (w, fs) itself, with any copy flags, give the same object *)
+Theorem cp_mode_dot_api_forms_agree (w : option (list F)) fs o c1 c2 opd mode kd o1 o2 :
+  cp_new Op w fs = Ok o ->
+  cp_mode_dot_api Op (CpTuple w fs) c1 opd mode kd = Ok o1 ->
+  cp_mode_dot_api Op (CpObject o) c2 opd mode kd = Ok o2 -> o1 = o2.
+Proof.
+  intros En E1 E2. destruct (cp_new_spec _ _ _ En) as (_ & Hw & Hf & _).
+  destruct (cp_mode_dot_api_spec _ _ _ _ _ _ E1) as (_ & D1 & S1). destruct (cp_mode_dot_api_spec _ _ _ _ _ _ E2) as (_ & D2 & S2).
+  cbn [operand_w operand_fs] in D1, D2. rewrite Hw, Hf in D2. rewrite D1 in D2. injection D2 as Ew Ef.
+  apply cp_obj_ext; congruence.
+Qed.
+Theorem cp_flip_sign_api_forms_agree (w : option (list F)) fs o summ mode o1 o2 :
+  cp_new Op w fs = Ok o ->
+  cp_flip_sign_api Op (CpTuple w fs) summ mode = Ok o1 ->
+  cp_flip_sign_api Op (CpObject o) summ mode = Ok o2 -> o1 = o2.
+Proof.
+  intros En E1 E2. destruct (cp_new_spec _ _ _ En) as (_ & Hw & Hf & _).
+  destruct (cp_flip_sign_api_spec _ _ _ _ E1) as (_ & D1 & S1). destruct (cp_flip_sign_api_spec _ _ _ _ E2) as (_ & D2 & S2).
+  cbn [operand_w operand_fs] in D1, D2. rewrite Hw, Hf in D2. rewrite D1 in D2. injection D2 as Ew Ef.
+  apply cp_obj_ext; congruence.
+Qed.
+End Api.
